@@ -283,7 +283,7 @@ class AckMonitor(Monitor):
 
 def scenario(params, ch):
     direction, size, retry, order, latency = params
-    mon = DeliveryMonitor()
+    mon = DeliveryMonitor(flag_delivery=False)
     am = AckMonitor()
     w = World(order=order, latency=latency, chooser=ch, monitors=[mon, am])
     try:
